@@ -34,7 +34,7 @@ func (c07) Describe() CheckInfo {
 		},
 		RealCode:       []string{"gopatch main()/mainCmd.Run, patch.Parse/File.Apply, go/format, x/tools/imports, pkg/diff, internal/*"},
 		Stubs:          []string{"package os (simulated filesystem, streams, exit)", "path/filepath walk", "io/ioutil"},
-		RequiredProbes: []string{"misfit-in-place", "misfit-print", "misfit-diff", "misfit-skip-import", "misfit-api", "misfit-refused", "cross-emission-checked", "emission-in-place", "emission-print", "emission-diff", "emission-api", "multi-file", "large-file-emission"},
+		RequiredProbes: []string{"misfit-in-place", "misfit-print", "misfit-diff", "misfit-skip-import", "misfit-api", "misfit-refused", "cross-emission-checked", "emission-in-place", "emission-print", "emission-diff", "emission-api", "multi-file", "large-file-emission", "identical-twins", "line-directive-subject"},
 	}
 }
 
@@ -71,8 +71,21 @@ func (c07) Gen(env *Env, seed uint64, tier string, i int) *Case {
 				c.AddFile(fmt.Sprintf("%s_o%d.go", r.Pick([]string{"a", "z"}), j), MatchingFile(r, pp.Files[0], "canonical", ""), "match", nil, "")
 			}
 		}
-		src := GenValidGoFile(r, GoFileOpts{Funcs: r.Range(1, 2), Stmts: []string{m.Stmt(k)}})
+		hdr := ""
+		if r.Chance(1, 3) {
+			// goyacc/cgo style: diagnostics for this file carry another file name
+			hdr = r.Pick([]string{"//line m_subject.y:1\n", "//line /gen/other.go:40\n\n", "// Produced by goyacc from parser.y.\n\n//line parser.y:2\n"})
+			c.Extra["line_directive"] = "1"
+		}
+		src := GenValidGoFile(r, GoFileOpts{Funcs: r.Range(1, 2), Stmts: []string{m.Stmt(k)}, Header: hdr})
 		c.AddFile("m_subject.go", src, "misfit", nil, m.Name)
+		if r.Chance(1, 3) {
+			// byte-identical copies of the failing file, adjacent in path order
+			for j := 0; j < r.Range(1, 2); j++ {
+				c.AddFile(fmt.Sprintf("m_subject_twin%d.go", j), src, "misfit-twin", nil, m.Name)
+			}
+			c.Extra["twins"] = "1"
+		}
 		c.Extra["family"] = "misfit:" + m.Name
 	case "cross":
 		corpus := Corpus()
@@ -193,6 +206,9 @@ func c07Emissions(c *Case, r *RunResult, init []world.FileState, soloPrint func(
 				seenSubj = true
 				continue
 			}
+			if f.Role == "misfit-twin" {
+				continue // sorts right after the subject: part of the same unknown region
+			}
 			sp := soloPrint(f)
 			if sp == nil {
 				return nil, "skip"
@@ -235,6 +251,37 @@ func c07Emissions(c *Case, r *RunResult, init []world.FileState, soloPrint func(
 		}
 	}
 	return em, ""
+}
+
+// c07Parses reports whether b is a valid Go file; with multi set, b may be the
+// concatenation of several files' outputs (the subject and its twins), which is
+// cut before every package clause that starts a line.
+func c07Parses(b []byte, multi bool) error {
+	err := ParsesAsGo(b)
+	if err == nil || !multi {
+		return err
+	}
+	var starts []int
+	for i := 0; i+8 <= len(b); i++ {
+		if (i == 0 || b[i-1] == '\n') && bytes.HasPrefix(b[i:], []byte("package ")) {
+			starts = append(starts, i)
+		}
+	}
+	if len(starts) < 2 {
+		return err
+	}
+	prev := 0
+	for k := 1; k <= len(starts); k++ {
+		end := len(b)
+		if k < len(starts) {
+			end = starts[k]
+		}
+		if e := ParsesAsGo(b[prev:end]); e != nil {
+			return e
+		}
+		prev = end
+	}
+	return nil
 }
 
 func (c07) Eval(env *Env, c *Case) []Violation {
@@ -302,9 +349,15 @@ func (c07) Eval(env *Env, c *Case) []Violation {
 		if fam == "cross" {
 			env.Probe("cross-emission-checked")
 		}
-		if err := ParsesAsGo(b); err != nil {
+		if err := c07Parses(b, c.Extra["twins"] == "1" && mode == "print"); err != nil {
 			add("unparseable-emission", mode+flags, fmt.Sprintf("%s mode emitted content for %s that does not parse (%v), exit status %d: %q", mode, p, err, r.Exit, clip(string(b), 300)))
 		}
+	}
+	if c.Extra["twins"] == "1" {
+		env.Probe("identical-twins")
+	}
+	if c.Extra["line_directive"] == "1" {
+		env.Probe("line-directive-subject")
 	}
 	// ---- a failed file is reported, untouched and not emitted ---------------------
 	var subj *FileMeta
@@ -313,7 +366,15 @@ func (c07) Eval(env *Env, c *Case) []Violation {
 			subj = &c.Files[i]
 		}
 	}
-	if subj != nil && strings.HasPrefix(fam, "misfit") && note == "" {
+	misfitSupplied := false
+	for _, p := range c.Patches {
+		for _, t := range p.Triggers {
+			if strings.HasPrefix(t, "vfChk") {
+				misfitSupplied = true
+			}
+		}
+	}
+	if subj != nil && strings.HasPrefix(fam, "misfit") && note == "" && misfitSupplied {
 		env.Probe("misfit-" + mode)
 		if c.Flags.SkipImport {
 			env.Probe("misfit-skip-import")
